@@ -215,6 +215,34 @@ fn part_w8(part: &str, from: u64, to: u64, want: &str, sink: &mut ChildSink) {
                     Outcome::OverflowPanic { msg, loc } => report(format!("{} | arithmetic overflow on arbitrary data ({}: {})", $name, loc.rsplit_once(':').map(|x| x.0).unwrap_or(&loc), msg), "C10,C20"),
                 }
             }}; }
+            // the same data decoded with the precision CHANGING on the way (4 -> 8 -> 2 and 2 -> 8): totality must survive
+            // `increase_precision` / `decrease_precision` / `change_precision`
+            macro_rules! chain_sched { ($S:ty, $name:expr) => {{
+                match guarded(|| {
+                    let mut n = 0u64;
+                    let mut bad = false;
+                    if let Ok(mut d) = ChainCoder::<u8, $S, Vec<u8>, Vec<u8>, 4>::from_binary(data.clone()) {
+                        for _ in 0..2 { if let Ok(sym) = d.decode_symbol(Part::<u8, 4> { c: 5, p: 9 }) { n += 1; bad |= sym > 2; } }
+                        if let Ok(mut d8) = d.increase_precision::<8>() {
+                            for &k in seq.iter().take(3) {
+                                let r = match k { 2 => d8.decode_symbol(&m.cat).map(|s| s < 4), 3 => d8.decode_symbol(&m.lookup).map(|s| s < 4), 6 => d8.decode_symbol(&m.lazy).map(|s| s < 3), _ => d8.decode_symbol(Part::<u8, 8> { c: 255, p: 1 }).map(|s| s <= 1) };
+                                if let Ok(ok) = r { n += 1; bad |= !ok; }
+                            }
+                            if let Ok(mut d2) = d8.decrease_precision::<2>() {
+                                for _ in 0..3 { if let Ok(sym) = d2.decode_symbol(Part::<u8, 2> { c: 1, p: 2 }) { n += 1; bad |= sym > 2; } }
+                                if let Ok(mut d8) = d2.change_precision::<8>() { if let Ok(sym) = d8.decode_symbol(&m.cat) { n += 1; bad |= sym >= 4; } }
+                            }
+                        }
+                    }
+                    (n, bad)
+                }) {
+                    Outcome::Value((n, bad)) => { if bad { report(format!("{} | returned a symbol outside the support of the model", $name), "C10"); } nsym.set(nsym.get() + n); }
+                    Outcome::CleanPanic { msg, loc } => report(format!("{} | panics on arbitrary data ({}: {})", $name, loc.rsplit_once(':').map(|x| x.0).unwrap_or(&loc), msg.chars().take(60).map(|ch| if ch.is_ascii_digit() { '#' } else { ch }).collect::<String>()), "C10"),
+                    Outcome::OverflowPanic { msg, loc } => report(format!("{} | arithmetic overflow on arbitrary data ({}: {})", $name, loc.rsplit_once(':').map(|x| x.0).unwrap_or(&loc), msg), "C10,C20"),
+                }
+            }}; }
+            chain_sched!(u16, "ChainCoder<u8,u16> with the precision changing 4 -> 8 -> 2 -> 8");
+            chain_sched!(u32, "ChainCoder<u8,u32> with the precision changing 4 -> 8 -> 2 -> 8");
             chain8!(u16, from_binary, "ChainCoder<u8,u16,8>::from_binary");
             chain8!(u32, from_binary, "ChainCoder<u8,u32,8>::from_binary");
             chain8!(u32, from_compressed, "ChainCoder<u8,u32,8>::from_compressed");
